@@ -84,8 +84,9 @@ class Row(tuple):
         Returns:
             A new Row instance.
         """
-        if isinstance(data, Mapping) and not isinstance(data, dict):
-            # other mappings carry fields by name too, iterating them would store the keys
+        if isinstance(data, Mapping) and type(data) is not dict:
+            # other mappings carry fields by name too (iterating them would store the keys),
+            # and the compiled extractor takes nothing but an exact dict
             data = dict(data)
         if isinstance(data, dict):
             # data = tuple([data.get(field) for field in cls._fields])
